@@ -44,7 +44,7 @@ class CycleNode(Node):
     def __str__(self) -> str:
         assert isinstance(self.token, TagToken)
         name = ""
-        if self.name:
+        if self.name is not None:
             # The group name is a string. Quote it unless it is a plain word.
             name = (
                 f"{self.name}: "
